@@ -57,6 +57,14 @@ Definition C08_complete_full_statement : Prop := forall c ops sch1 sch2 t ts o v
 Theorem C08_complete : C08_complete_full_statement.
 Proof. exact complete. Qed.
 
+(* "returned before Stop was invoked": an Enqueue call that has returned in a state in which no Stop call has been
+   invoked yet was accepted (RAcc) or found the object already scheduled (RDup), never rejected; this discharges the
+   hypothesis on r above. *)
+Theorem C08_enqueue_accepted_before_stop : forall c ops s t o v r, fixedc c -> reach c ops s ->
+  (forall j p, nth_error (thr s) j = Some (OStop, p) -> p = PIdle) ->
+  nth_error (thr s) t = Some (OEnq o v, PRet r) -> r = RAcc \/ r = RDup.
+Proof. exact enq_accepted_before_stop. Qed.
+
 (* The same for every accepted call, also when a later Enqueue on the same object was invoked (and possibly rejected):
    a BatchWrite(o) follows the invocation of t in the log (wsince scans the log newest-first for a BatchWrite(o) before
    reaching t's invocation event). *)
@@ -68,6 +76,20 @@ Theorem C08_complete_written : forall c ops sch1 sch2 t ts o v r r', fixedc c ->
   nth_error (thr s2) ts = Some (OStop, PRet r') ->
   wsince (log s2) t o = true.
 Proof. exact complete_written. Qed.
+
+(* The headline in explicit form: for an accepted call t of Enqueue(o) that returned before the Stop call ts was
+   invoked, the chronological callback log at the return of ts reads
+     ... Enqueue(o) invoked by t ... BatchWrite(o, v') ... Commit(b) with (o, v') in b ... BatchWriteDone(o) ... *)
+Theorem C08_complete_ordered : forall c ops sch1 sch2 t ts o v r r', fixedc c ->
+  let s1 := run c sch1 (init ops) in
+  let s2 := run c sch2 s1 in
+  nth_error (thr s1) t = Some (OEnq o v, PRet r) -> (r = RAcc \/ r = RDup) ->
+  nth_error (thr s1) ts = Some (OStop, PIdle) ->
+  nth_error (thr s2) ts = Some (OStop, PRet r') ->
+  exists L1 v' L2 b L3 L4,
+    rev (log s2) = L1 ++ EvWrite o v' :: L2 ++ EvCommit b :: L3 ++ EvDone o :: L4 /\
+    In (EvSet t o v) L1 /\ In (o, v') b.
+Proof. exact complete_ordered. Qed.
 
 (* NO BLOCKING (repaired code), supporting facts: a call past its running check is never abandoned by the writer
    (the writer is alive and scheduledCount >= 1 keeps it alive), and once the writer has terminated Wait is open,
@@ -97,6 +119,15 @@ Theorem C08_progress : forall c ops s i o p, fixedc c -> reach c ops s ->
   exists t ch s', t <= length (thr s) /\ In ch choices /\ step c s t ch = Some s'.
 Proof. exact progress. Qed.
 
+(* NO CALL BLOCKS FOR EVER, possibility form (repaired code; every queue size incl. rendezvous, every batch size, every
+   script): every reachable state has a continuation of the schedule after which every call has returned.  So no
+   Enqueue / Flush / Stop call is ever in a position from which it cannot return (a call parked at its send is served by
+   the live writer, a Stop parked at Wait is released by the writer's exit, which happens once the calls that raised the
+   counter have returned and the queue is drained).  Strictly stronger than C08_no_block; not a fairness theorem: that
+   a fair scheduler actually takes such a continuation is not formalised. *)
+Theorem C08_can_finish : forall c ops s, fixedc c -> reach c ops s -> exists sch, all_returned (run c sch s).
+Proof. exact can_finish. Qed.
+
 (* PINNED CODE - refuted (D08a, D08b); both repaired by fix: commits, the model's fixed variant mirrors the repair *)
 Theorem C08_refuted_wg_pinned :
   pc_of s_d08a 0 = Some (PRet RAcc) /\ pc_of s_d08a 1 = Some (PRet (RStop true)) /\
@@ -107,6 +138,10 @@ Theorem C08_refuted_block_pinned :
   pc_of (s_d08b 0) 1 = Some (PE ESend) /\ pc_of (s_d08b 0) 2 = Some (PRet (RStop true)) /\
   wp (s_d08b 0) = WFin /\ stuckb (cfg_d08b 0) (s_d08b 0) = true.
 Proof. exact d08b_witness_block. Qed.
+
+(* ... and stays parked there under every continuation (contrast to C08_can_finish) *)
+Theorem C08_refuted_block_pinned_forever : forall sch, pc_of (run (cfg_d08b 0) sch (s_d08b 0)) 1 = Some (PE ESend).
+Proof. exact d08b_block_forever. Qed.
 
 Theorem C08_refuted_strand_pinned :
   pc_of (s_d08b 1) 1 = Some (PRet RAcc) /\ pc_of (s_d08b 1) 2 = Some (PRet (RStop true)) /\
@@ -130,7 +165,7 @@ Example C08_complete_nonvacuous :
   nth_error (thr s2) 2 = Some (OStop, PRet (RStop true)) /\ store s2 1 = Some 2.
 Proof. vm_compute. repeat split; reflexivity. Qed.
 
-(* non-vacuity of C08_complete / C08_complete_written: Enqueue(0) returned "accepted" before Stop is invoked *)
+(* non-vacuity of C08_complete / C08_complete_written / C08_complete_ordered: Enqueue(0) returned "accepted" before Stop is invoked *)
 Example C08_complete_value_nonvacuous :
   let s1 := run (fixed 1 1) (rep 10 1 ++ rep 2 0 ++ [(1, CStep)]) (init ops_d08b) in
   let s2 := run (fixed 1 1) (skipn 13 sch_race_fixed) s1 in
@@ -147,6 +182,24 @@ Example C08_no_block_nonvacuous :
   stuckb (fixed 0 1) (run (fixed 0 1) (rep 10 1) (init ops_d08b)) = false.
 Proof. split. exists sch_race_fixed; reflexivity. vm_compute. repeat split; reflexivity. Qed.
 
+(* non-vacuity of C08_enqueue_accepted_before_stop: a returned Enqueue while the only Stop call is not yet invoked *)
+Example C08_accepted_nonvacuous :
+  let s1 := run (fixed 1 1) (rep 10 1 ++ rep 2 0 ++ [(1, CStep)]) (init ops_d08b) in
+  (forall j p, nth_error (thr s1) j = Some (OStop, p) -> p = PIdle) /\
+  nth_error (thr s1) 0 = Some (OEnq 0 1, PRet RAcc).
+Proof.
+  split; [|vm_compute; reflexivity].
+  intros j p. vm_compute. destruct j as [|[|[|[|j]]]]; intros H; try discriminate H. injection H as <-. reflexivity.
+Qed.
+
+(* non-vacuity of C08_can_finish: a reachable state with a call parked at its send on a rendezvous queue and a Stop
+   call parked at Wait (the writer is alive because the parked call has raised the counter) *)
+Example C08_can_finish_nonvacuous :
+  let s := run (fixed 0 1) (rep 9 2 ++ rep 5 3 ++ rep 2 0) (init ops_d08b) in
+  pc_of s 1 = Some (PE ESend) /\ pc_of s 2 = Some (PS4 true) /\ wp s = WBatched MCollect /\ running s = false /\
+  sched s = 1%Z.
+Proof. vm_compute. repeat split; reflexivity. Qed.
+
 Example C08_sender_nonvacuous :
   let s := run (fixed 0 1) (rep 10 1) (init ops_d08b) in
   nth_error (thr s) 0 = Some (OEnq 0 1, PE ESend) /\ wp s = WHead /\ sched s = 1%Z.
@@ -156,8 +209,12 @@ Print Assumptions C08_safety.
 Print Assumptions C08_complete_partial.
 Print Assumptions C08_complete.
 Print Assumptions C08_complete_written.
+Print Assumptions C08_complete_ordered.
 Print Assumptions C08_no_block.
 Print Assumptions C08_progress.
+Print Assumptions C08_enqueue_accepted_before_stop.
+Print Assumptions C08_can_finish.
+Print Assumptions C08_refuted_block_pinned_forever.
 Print Assumptions C08_enqueue_returned_writer_exists.
 Print Assumptions C08_no_block_partial_sender.
 Print Assumptions C08_no_block_partial_after_exit.
